@@ -286,12 +286,13 @@ def gate_tok(g):
     return str(ORD.index((g.name, q.alias_index)))
 
 
-def real(items, timeout=5):
+def real(items, timeout=None):
     """-> dict(discover, serialize, visits, nsub, c08_internal) or {"hang": True}"""
     R = _load()
     res = {}
     old = signal.signal(signal.SIGALRM, _alarm)
-    signal.alarm(timeout)
+    from harness import timeouts as _T
+    signal.alarm(timeout or _T.limit())
     try:
         c = R["parse"](src_of(items), inject_pulses=R["GI"], autoload_pulses=False)
         try:
@@ -325,6 +326,8 @@ def real(items, timeout=5):
         except Exception as e:
             res["visits"] = "raise " + type(e).__name__
     except Hang:
+        from harness import timeouts as _T2
+        _T2.saw_hang()
         res = {"hang": True}
     finally:
         signal.alarm(0)
